@@ -22,7 +22,7 @@ LEVEL_NOTE = (
 )
 TECHNIQUE = "property-based differential testing against a reference interpreter (Hypothesis grammar-based program generation)"
 RULE = (
-    "Hypothesis draws a plan spec (<= 8 nodes quick / 12 thorough; build histories: the same mutable list/dict/set "
+    "(also: 3 plans per shard of 1000-5000 calls - chain, fan-in, reduction tree, ladder - compared with plain evaluation; unpack operands whose len() is not their item count) Hypothesis draws a plan spec (<= 8 nodes quick / 12 thorough; build histories: the same mutable list/dict/set "
     "object passed to several calls and mutated in between, accumulator idiom, one container object at several positions of a structure) with an output spec (none / constant / node / "
     "nested structure) and three run configurations (workers, scheduler default/random/None, schedule: real threads "
     "or deterministic scheduler). Oracle: result and every call's received arguments equal the reference "
